@@ -150,6 +150,11 @@ inductive Dst | to (d : Name) | same | internal
 def mkTr (dst : Dst) (pass : Bool) (s : Name) : Tr :=
   { source := s, dest := (match dst with | .to d => some d | .same => some s | .internal => none), pass }
 
+/-- `'*'` is `list(self.states.keys())` at the time of the call -/
+def Src.expand (states : List Name) : Src → List Name
+  | .all => states
+  | .one s => [s]
+
 /-- `Machine.add_transition` -/
 def addTransition (hm : HM) (e : Name) (src : Src) (dst : Dst) (pass : Bool) : HM × Option Err :=
   -- if trigger == self.model_attribute: raise ValueError
@@ -157,10 +162,7 @@ def addTransition (hm : HM) (e : Name) (src : Src) (dst : Dst) (pass : Bool) : H
   -- if trigger not in self.events: create the event, bind it on every model
   let hm1 : HM := if (kget e hm.events).isSome then hm
     else { hm.onObjs (addTriggerToModel hm.override e) with events := hm.events ++ [(e, [])] }
-  let srcs := match src with
-    | .all => hm.states
-    | .one s => [s]
-  ({ hm1 with events := kset e ((kget e hm1.events).getD [] ++ srcs.map (mkTr dst pass)) hm1.events }, none)
+  ({ hm1 with events := kset e ((kget e hm1.events).getD [] ++ (src.expand hm.states).map (mkTr dst pass)) hm1.events }, none)
 
 /-- the auto-transition loop of `add_states`: `for a_state in self.states.keys(): …` -/
 def autoLoop (s : Name) : List Name → HM → HM × Option Err
